@@ -413,7 +413,7 @@ def check(prop, tier, seed):
     paths = [r[1] for r in results]
     kmod = 400 if tier == "quick" else 6000
     try:
-        truns, tskipped = tracel2.convert(paths, per_module_max=kmod, per_file_max=max(8, (3 * kmod) // max(1, len(paths))))
+        truns, tskipped = tracel2.convert_balanced(paths, kmod)
         tval = tracel2.validate(truns, WORK, prop, workers=max(2, NCPU // 2))
     except RuntimeError as e:
         raise ToolError(str(e))
